@@ -28,7 +28,7 @@ def kind_of(v):
     return 'U'
 
 
-def gen_members(ch, n, axis, retain):
+def gen_members(ch, n, axis, retain, dates=False):
     '''n frames aligned on the opposite axis. Returns list of specs {name, index, columns, rows}.'''
     shared_n = ch.randint(1, 4)
     shared = (COLL if axis == 0 else ROWL)[:shared_n]
@@ -48,6 +48,10 @@ def gen_members(ch, n, axis, retain):
             used += k
         if len(own) < k:
             own = own + ['m%d_%d' % (m, i) for i in range(k - len(own))]
+        if dates:
+            # date labels along the Quilt axis (one month per member; with retained labels sometimes the same days again)
+            month = 1 if (retain and own and own[0] == (ROWL if axis == 0 else COLL)[0]) else m + 1
+            own = ['2021-%02d-%02d' % (month, i + 1) for i in range(k)]
         nr, nc = (k, shared_n) if axis == 0 else (shared_n, k)
         mkinds = [ch.choice(['int', 'float', 'str', 'bool', 'int']) for _ in range(nc)]  # one kind per column
         rows = []
@@ -183,13 +187,14 @@ class QuiltWorld(WorldBase):
         mp = ch.choice([None, 1, 1, 2, n])
         if mp is not None:
             mp = max(1, min(mp, n))
-        members = gen_members(ch, n, axis, retain)
+        dates = ch.chance(0.15)
+        members = gen_members(ch, n, axis, retain, dates)
         backing = ch.weighted([('zip_pickle', 7), ('memory', 2)])
         if not isinstance(members[0]['name'], str):
             backing = 'memory'  # stores need string labels (or an encoder); integer labels live in an in-memory Bus
         return {
             'steps': ch.randint(3, 30 if tier == 'thorough' else 22),
-            'axis': axis, 'retain': retain, 'deepcopy': ch.chance(0.3), 'mp': mp,
+            'axis': axis, 'retain': retain, 'deepcopy': ch.chance(0.3), 'mp': mp, 'date_axis': dates,
             'members': members,
             'backing': backing,
             'faults': ch.chance(0.3), 'alloc_cap': ch.choice([2, 1024]),
@@ -210,6 +215,10 @@ class QuiltWorld(WorldBase):
         self.axis = cfg['axis']
         self.retain = cfg['retain']
         self.members = cfg['members']
+        self.date_axis = bool(cfg.get('date_axis'))
+        if self.date_axis:
+            key = 'index' if self.axis == 0 else 'columns'
+            self.members = [dict(m, **{key: [np.datetime64(x, 'D') for x in m[key]]}) for m in self.members]
         self.ref = Ref(self.members, self.axis, self.retain)
         self.dir = tempfile.mkdtemp(prefix='sfq_', dir='/dev/shm' if os.path.isdir('/dev/shm') else None)
         self.clock = 0
@@ -239,6 +248,10 @@ class QuiltWorld(WorldBase):
     def _frame(self, spec):
         sf = self.sf
         cols = [[r[j] for r in spec['rows']] for j in range(len(spec['columns']))]
+        if self.date_axis and self.axis == 0:
+            return sf.Frame.from_items(zip(spec['columns'], cols), index=sf.IndexDate(spec['index']), name=spec['name'])
+        if self.date_axis:
+            return sf.Frame.from_items(zip(spec['columns'], cols), index=sf.Index(spec['index']), name=spec['name'], columns_constructor=sf.IndexDate)
         return sf.Frame.from_items(zip(spec['columns'], cols), index=sf.Index(spec['index']), name=spec['name'])
 
     def _put(self, tag, ns):
@@ -307,13 +320,15 @@ class QuiltWorld(WorldBase):
                             ('q_export', 0.6)])
         op = {'op': what, 'q': qi}
         if what == 'q_attr':
-            op['what'] = ch.choice(['shape', 'size', 'ndim', 'index', 'columns', 'keys', 'contains', 'status', 'repr', 'len_iter', 'nbytes', 'get'])
+            op['what'] = ch.choice(['shape', 'size', 'ndim', 'index', 'columns', 'keys', 'contains', 'status', 'repr', 'len_iter', 'nbytes', 'get', 'axis_classes'])
             op['j'] = ch.randint(0, max(0, nc - 1))
         elif what in ('q_iloc', 'q_loc'):
             op['r'] = self._key(ch, nr, hier=self.retain and self.axis == 0)
             op['c'] = self._key(ch, nc, hier=self.retain and self.axis == 1)
             if what == 'q_iloc' and ch.chance(0.2):
                 op['c'] = None  # single-axis key
+            if what == 'q_loc' and self.date_axis:
+                op['strkeys'] = ch.choice(['no', 'iso', 'iso', 'month'])
         elif what == 'q_getitem':
             op['c'] = self._key(ch, nc, hier=self.retain and self.axis == 1)
         elif what == 'q_iter':
@@ -511,13 +526,29 @@ class QuiltWorld(WorldBase):
             if not nc:
                 return site, None, None
             lab = ref.columns[op['j'] % nc]
-            return site, {'t': 'tuple', 'cells': [('b', True), ('b', False)]}, lambda: (lab in q, 'absent-label' in q)
+            absent = np.datetime64('1999-01-01') if (self.date_axis and self.axis == 1 and not self.retain) else 'absent-label'  # a date index parses string keys
+            return site, {'t': 'tuple', 'cells': [('b', True), ('b', False)]}, lambda: (lab in q, absent in q)
         if w == 'get':
             if not nc:
                 return site, None, None
             j = op['j'] % nc
             lab = ref.columns[j]
             return site, self._exp_sel({'all': 1}, {'i': j}), lambda: q.get(lab)
+        if w == 'axis_classes':
+            # the class of the labels along the Quilt axis (typed labels such as dates keep their type), on the Quilt and on what it returns
+            inner = 'IndexDate' if self.date_axis else 'Index'
+            want = ['Index', inner] if self.retain else [inner]
+
+            def classes(ix):
+                if ix.depth > 1:
+                    return [c.__name__.replace('GO', '') for c in ix.index_types.values.tolist()]
+                return [type(ix).__name__.replace('GO', '')]
+
+            def thunk_classes():
+                ax = (lambda x: x.index) if self.axis == 0 else (lambda x: x.columns)
+                part = q.iloc[0:2] if self.axis == 0 else q.iloc[:, 0:2]
+                return tuple(tuple(classes(ax(x))) for x in (q, q.to_frame(), part))
+            return site, {'t': 'tuple', 'cells': norm_list([tuple(want)] * 3)}, thunk_classes
         if w == 'status':
             return site, None, lambda: q.status
         if w == 'nbytes':
@@ -540,6 +571,28 @@ class QuiltWorld(WorldBase):
             return 'Quilt.loc', None, None
         exp = self._exp_sel(rk, ck)
         sf = self.sf
+        sk = op.get('strkeys', 'no')
+        if self.date_axis and sk != 'no':
+            # dates given as strings (whole or, for a single label, just its month): what an IndexDate accepts on the single Frame
+            def as_str(x):
+                if isinstance(x, tuple):
+                    return tuple(as_str(v) for v in x)
+                return str(x) if isinstance(x, np.datetime64) else x
+            ak = rk if self.axis == 0 else ck
+            labels = ref.index if self.axis == 0 else ref.columns
+            if sk == 'month' and ak and 'i' in ak and not self.retain and -len(labels) <= ak['i'] < len(labels):
+                lab = labels[ak['i']]
+                month = str(lab)[:7]
+                pos = [i for i, x in enumerate(labels) if str(x)[:7] == month]
+                if self.axis == 0:
+                    lr, exp = month, self._exp_sel({'l': pos}, ck)
+                else:
+                    lc, exp = month, self._exp_sel(rk, {'l': pos})
+            elif self.axis == 0:
+                lr = slice(as_str(lr.start), as_str(lr.stop), lr.step) if isinstance(lr, slice) else [as_str(x) for x in lr] if isinstance(lr, list) else as_str(lr)
+            else:
+                lc = slice(as_str(lc.start), as_str(lc.stop), lc.step) if isinstance(lc, slice) else [as_str(x) for x in lc] if isinstance(lc, list) else as_str(lc)
+            self.probe('date-labels-selected-by-string')
         # a bare tuple label on a hierarchical axis must be wrapped so that it is not read as (rows, cols)
         if isinstance(lr, tuple):
             lr = sf.HLoc[lr]
@@ -632,7 +685,7 @@ class QuiltWorld(WorldBase):
             return tuple(out)
         if op.get('apply'):
             # function application over the iterator: one result per label, labelled like the axis iterated over
-            depth = len(labels[0]) if labels and isinstance(labels[0], tuple) else 1
+            depth = 2 if self.retain else 1  # iteration runs along the Quilt's own axis
 
             def thunk_apply():
                 if kind == 'array':
